@@ -24,14 +24,16 @@ func (p *PemReader) Read(byteData []byte) (int, error) {
 }
 
 func (p *PemReader) readNextBase64Line(byteData []byte) (int, error) {
-	readString, err := p.Reader.ReadString('\n')
-	if err != nil {
-		return 0, err
-	}
-	matchString := pemPaddingRegEx.MatchString(readString)
-	if matchString {
-		return p.readNextBase64Line(byteData)
-	} else {
+	//padding lines are skipped in a loop, not recursively: their number is controlled by the sender of the data
+	for {
+		readString, err := p.Reader.ReadString('\n')
+		if err != nil {
+			return 0, err
+		}
+		matchString := pemPaddingRegEx.MatchString(readString)
+		if matchString {
+			continue
+		}
 		if len(readString) > pemMaxLineLength {
 			return 0, fmt.Errorf("line was longer than 64 characters %s", readString)
 		} else {
